@@ -47,6 +47,15 @@ def run_shard(shard, ctx):
                     for pad in ((0, 70000, 300000) if depth == 1 and site != "attribute" else (0,)):
                         run_case({"entry": shard["entry"], "family": fam, "depth": depth, "site": site, "handle": handle,
                                   "pad": pad}, ctx)
+                    if depth == 1 and site == "text":
+                        # what may legally stand between the XML declaration and the DOCTYPE
+                        for prolog in ("pi", "comment", "whitespace", "pi+comment", "no-declaration"):
+                            run_case({"entry": shard["entry"], "family": fam, "depth": depth, "site": site, "handle": handle,
+                                      "pad": 0, "prolog": prolog}, ctx)
+                        if handle == "bytes":
+                            for enc in ("utf-16", "utf-16-le-bom", "iso-8859-1", "gbk", "shift_jis", "big5", "euc-kr"):
+                                run_case({"entry": shard["entry"], "family": fam, "depth": depth, "site": site,
+                                          "handle": handle, "pad": 0, "encoding": enc}, ctx)
 
 
 def _doctype(fam, depth, canary, root):
@@ -108,8 +117,16 @@ def _document(entry, fam, depth, site, canary):
     return head + body, expect
 
 
-def _parse(entry, doc, d, handle="text"):
-    fh = io.StringIO(doc) if handle == "text" else io.BytesIO(doc.encode("utf-8"))
+def _parse(entry, doc, d, handle="text", encoding=None):
+    if handle == "text":
+        fh = io.StringIO(doc)
+    elif encoding is None:
+        fh = io.BytesIO(doc.encode("utf-8"))
+    else:
+        codec = {"utf-16-le-bom": "utf-16"}.get(encoding, encoding)
+        decl = {"utf-16-le-bom": "UTF-16"}.get(encoding, encoding)
+        doc = doc.replace('<?xml version="1.0"?>', f'<?xml version="1.0" encoding="{decl}"?>', 1)
+        fh = io.BytesIO(doc.encode(codec))
     if entry == "ovf":
         from dissect.hypervisor.descriptor.ovf import OVF
 
@@ -146,6 +163,13 @@ def run_case(case, ctx):
             with open(p, "w") as f:
                 f.write('<!ENTITY g "leaked">' if p.endswith(".dtd") else "TOP-SECRET")
         doc, expect = _document(entry, fam, depth, site, canary)
+        if case.get("prolog"):
+            ins = {"pi": '<?xml-stylesheet type="text/xsl" href="style.xsl"?>', "comment": "<!-- generated -->",
+                   "whitespace": "\n \t\n", "pi+comment": '<!-- c --><?proc data?>\n<!-- d -->', "no-declaration": ""}[case["prolog"]]
+            if case["prolog"] == "no-declaration":
+                doc = doc.replace('<?xml version="1.0"?>', "", 1)
+            else:
+                doc = doc.replace('<?xml version="1.0"?>', '<?xml version="1.0"?>' + ins, 1)
         if case.get("pad"):
             # a large document: harmless comment padding before the closing tag of the root element
             cut = doc.rindex("</")
@@ -159,7 +183,7 @@ def run_case(case, ctx):
         with ctx.watch(case, 120):
             with monitors.armed() as events:
                 try:
-                    result = _parse(entry, doc, d, case.get("handle", "text"))
+                    result = _parse(entry, doc, d, case.get("handle", "text"), case.get("encoding"))
                 except Exception as e:
                     exc = e
             evs = list(events)
@@ -175,6 +199,8 @@ def run_case(case, ctx):
                               {"result": repr(result)[:200], "depth": depth})
                 return
             ctx.outcome("refused")
+        elif case.get("encoding") in ("gbk", "shift_jis", "big5", "euc-kr") and exc is not None:
+            ctx.outcome("refused")  # the XML parser does not support multi-byte legacy encodings at all: refusing is fine
         else:
             if exc is not None or result != expect:
                 ctx.violation(case, {"subject": f"xml.{entry}", "kind": "benign-document-misparsed", "family": fam},
